@@ -451,6 +451,54 @@ func spaceBothOrders(sp func(emit func(Input))) func(emit func(Input)) {
 	}
 }
 
+// spaceRotations presents every input of sp (an edge SET over topologically labelled nodes, in lexicographic order) in
+// a family of 4m edge orders: every rotation of the source-major order (u,v), of the target-major order (v,u) and of
+// the reverses of both. Sorted orders give every node a monotone adjacency list and visit the nodes in topological
+// order; the rotations are the smallest family in which adjacency lists are NOT monotone and the node list does not
+// start at a source — what order-dependent traversals (explicit stacks, "first minimum wins", visited flags) need in
+// order to go wrong. Node numbers are relabelled in first-occurrence order, as everywhere.
+func spaceRotations(sp func(emit func(Input))) func(emit func(Input)) {
+	return func(emit func(Input)) {
+		sp(func(in Input) {
+			m := in.M()
+			type ed struct{ u, v int }
+			es := make([]ed, m)
+			for i := range es {
+				es[i] = ed{in.E[2*i], in.E[2*i+1]}
+			}
+			orders := make([][]ed, 0, 4)
+			a := append([]ed(nil), es...)
+			sort.Slice(a, func(i, j int) bool { return a[i].u < a[j].u || (a[i].u == a[j].u && a[i].v < a[j].v) })
+			b := append([]ed(nil), es...)
+			sort.Slice(b, func(i, j int) bool { return b[i].v < b[j].v || (b[i].v == b[j].v && b[i].u < b[j].u) })
+			rev := func(x []ed) []ed {
+				r := make([]ed, len(x))
+				for i := range x {
+					r[len(x)-1-i] = x[i]
+				}
+				return r
+			}
+			orders = append(orders, a, b, rev(a), rev(b))
+			seen := map[string]bool{}
+			for _, o := range orders {
+				for r := 0; r < m; r++ {
+					flat := make([]int, 0, 2*m)
+					for i := 0; i < m; i++ {
+						e := o[(i+r)%m]
+						flat = append(flat, e.u, e.v)
+					}
+					out := relabel(flat)
+					k := fmt.Sprint(out.E)
+					if !seen[k] {
+						seen[k] = true
+						emit(out)
+					}
+				}
+			}
+		})
+	}
+}
+
 func spaceFilter(sp func(emit func(Input)), keep func(in Input) bool) func(emit func(Input)) {
 	return func(emit func(Input)) {
 		sp(func(in Input) {
